@@ -217,8 +217,20 @@ func (d *Document) GetPageSettings() *PageSettings {
 		width := twipsToMM(parseFloat(sectPr.PageSize.W))
 		height := twipsToMM(parseFloat(sectPr.PageSize.H))
 
-		// 判断是否为预定义尺寸
+		// SetPageSettings 在横向时会交换宽高后再写入，这里必须换回来，
+		// 否则自定义尺寸每经过一次“读取-修改-写入”（所有便捷设置方法）页面就会被旋转一次
+		if sectPr.PageSize.Orient == string(OrientationLandscape) {
+			width, height = height, width
+		}
+
+		// 判断是否为预定义尺寸；只有在同一方向上匹配时才视为预定义尺寸，
+		// 否则（例如纵向的 297x210）下一次写入会把页面旋转成标准方向
 		settings.Size = identifyPageSize(width, height)
+		if dims, ok := predefinedSizes[settings.Size]; ok {
+			if abs(width-dims.width) >= 1.0 || abs(height-dims.height) >= 1.0 {
+				settings.Size = PageSizeCustom
+			}
+		}
 		if settings.Size == PageSizeCustom {
 			settings.CustomWidth = width
 			settings.CustomHeight = height
